@@ -132,10 +132,10 @@ enum L4Expect {
     SynAck { ack: u32 },
     FinAck { seq: u32, ack: u32 },
     /// data segment that must be answered: header arithmetic + application verdict
-    Data { seq: u32, ack: u32, app: AppVerdict, ctx: AppCtx, stream_before: usize },
+    Data { seq: u32, ack: u32, app: AppVerdict, ctx: AppCtx, stream_before: usize, stream: Vec<u8> },
     /// data segment on which answered-or-not is unspecified; if answered the arithmetic holds
     DataMaybe { seq: u32, ack: u32, why: String },
-    Udp { app: AppVerdict, ctx: AppCtx },
+    Udp { app: AppVerdict, ctx: AppCtx, payload: Vec<u8> },
 }
 
 impl Model {
@@ -402,12 +402,14 @@ impl Model {
                     let st = tbl.flows.entry(key).or_default();
                     let before = st.stream.len();
                     let verdict = app::stream_verdict(&self.sigs, st, t.payload, &ctx);
+                    let stream = st.stream.clone();
                     L4Expect::Data {
                         seq,
                         ack,
                         app: verdict,
                         ctx,
                         stream_before: before,
+                        stream,
                     }
                 } else if f == F_ACK {
                     L4Expect::Silent("C07", "bare-ack")
@@ -457,7 +459,7 @@ impl Model {
                         v = AppVerdict::Unspecified("inconsistent headers".into());
                     }
                 }
-                L4Expect::Udp { app: v, ctx }
+                L4Expect::Udp { app: v, ctx, payload: u.payload.to_vec() }
             }
             _ => L4Expect::Silent("C02", "next-protocol-unsupported"),
         }
@@ -873,7 +875,7 @@ impl Model {
                     }
                 }
             }
-            L4Expect::Data { seq, ack, app, ctx, stream_before } => {
+            L4Expect::Data { seq, ack, app, ctx, stream_before, stream } => {
                 let t = rip.as_ref().filter(|r| r.proto == P_TCP).and_then(|r| parse_tcp(r.payload));
                 match t {
                     None => {
@@ -886,7 +888,7 @@ impl Model {
                     }
                     Some(t) => {
                         self.check_data_header(&t, *seq, *ack, ctx, app, j);
-                        self.check_app(app, ctx, t.payload, &t, *stream_before, j);
+                        self.check_app(app, ctx, t.payload, stream, *stream_before, j);
                     }
                 }
             }
@@ -907,7 +909,7 @@ impl Model {
                     }
                 }
             }
-            L4Expect::Udp { app, ctx } => {
+            L4Expect::Udp { app, ctx, payload } => {
                 let u = rip.as_ref().filter(|r| r.proto == P_UDP).and_then(|r| parse_udp(r.payload));
                 match (app, u) {
                     (AppVerdict::Silent(prop, why), None) => j.class = format!("udp-silent:{}", why),
@@ -929,10 +931,14 @@ impl Model {
                     }
                     (AppVerdict::Answer(req), None) => {
                         j.class = format!("udp-unanswered:{}", req.kind());
+                        let key = match crate::shadow::explain(payload, true) {
+                            Some(ev) => ev,
+                            None => format!("unanswered:{}", req.kind()),
+                        };
                         j.findings.push(finding(
                             req.prop(),
-                            &format!("unanswered:{}", req.kind()),
-                            format!("valid {} request over UDP not answered", req.kind()),
+                            &key,
+                            format!("valid {} request over UDP not answered ({}): {}", req.kind(), key, hex(payload)),
                         ));
                     }
                     (AppVerdict::Answer(req), Some(u)) => {
@@ -996,7 +1002,7 @@ impl Model {
         }
     }
 
-    fn check_app(&self, app: &AppVerdict, ctx: &AppCtx, payload: &[u8], _t: &PTcp, _before: usize, j: &mut Judgement) {
+    fn check_app(&self, app: &AppVerdict, ctx: &AppCtx, payload: &[u8], stream: &[u8], _before: usize, j: &mut Judgement) {
         match app {
             AppVerdict::Silent(prop, why) => {
                 j.class = format!("tcp-silent:{}", why);
@@ -1015,10 +1021,14 @@ impl Model {
             AppVerdict::Answer(req) => {
                 j.class = format!("tcp-answer:{}", req.kind());
                 if payload.is_empty() {
+                    let key = match crate::shadow::explain(stream, false) {
+                        Some(ev) => ev,
+                        None => format!("unanswered:{}", req.kind()),
+                    };
                     j.findings.push(finding(
                         req.prop(),
-                        &format!("unanswered:{}", req.kind()),
-                        format!("complete {} request over TCP got a bare ACK", req.kind()),
+                        &key,
+                        format!("complete {} request over TCP got a bare ACK ({}): stream {}", req.kind(), key, hex(stream)),
                     ));
                 } else if let Err((prop, key, what)) = req.validate(payload, ctx) {
                     j.findings.push(finding(prop, &key, what));
